@@ -1,7 +1,46 @@
 """Translator tie shared by C19 / C17 / C18: gen/sbx_translate.py turns the CURRENT source of the
 sandbox decision functions into terms of Lib/PySbx.v; the generated Gen_sbx_src.v proves
 `interpreted source term = model function` for every argument (see notes/C17.md)."""
+import hashlib
+import os
+
 from . import lib
+
+
+def _deps_digest():
+    """digest of the compiled static theories a generated file depends on (Lib/PySbx, Model/Sbx*, Proofs/Sbx*)"""
+    h = hashlib.sha1()
+    for d in ("Lib", "Model", "Proofs", "Spec"):
+        base = os.path.join(lib.THEORIES, d)
+        for f in sorted(os.listdir(base)):
+            if f.endswith(".vo") and (f.startswith("Sbx") or f.startswith("PySbx")):
+                h.update(f.encode())
+                h.update(open(os.path.join(base, f), "rb").read())
+    return h.hexdigest()
+
+
+def checked_obligation(ctx, name, text, n):
+    """ctx.coq_obligation with a content-addressed memo: the text is regenerated from the current source on
+    every run; when it is byte-identical to a text coqc accepted before (same compiled dependencies), the recorded
+    acceptance is reused instead of running coqc again.  Any change of the source or of the theories changes the
+    key and forces a real compile.  VERIF_NO_OBLIGATION_CACHE=1 disables the memo."""
+    key = hashlib.sha1((text + "|" + _deps_digest()).encode()).hexdigest()
+    stamp = os.path.join(ctx.bdir, name + ".accepted")
+    if os.environ.get("VERIF_NO_OBLIGATION_CACHE") != "1" and ctx.tier != "thorough" and os.path.exists(stamp):
+        rec = open(stamp).read().split("\n", 1)
+        if rec[0] == key:
+            ctx.obligations += n
+            ctx.discharged += n
+            ctx.obligation_names.append(f"{name} (regenerated, {n}; identical text accepted by coqc earlier, key {key[:12]})")
+            ctx.extra.setdefault("obligations_reused", []).append(name)
+            return True, rec[1] if len(rec) > 1 else ""
+    ok, out = ctx.coq_obligation(name, text, n_obligations=n)
+    if ok:
+        with open(stamp, "w") as f:
+            f.write(key + "\n" + out)
+    elif os.path.exists(stamp):
+        os.unlink(stamp)
+    return ok, out
 
 
 def source_equations(ctx, want):
@@ -15,7 +54,7 @@ def source_equations(ctx, want):
         ctx.obligation_names.append(f"Gen_sbx_src (source = model, {len(names)})")
         ctx.broken.append(f"translator gen/sbx_translate.py: sandbox.py left the translatable vocabulary: {e}")
         return False
-    ok, out = ctx.coq_obligation("Gen_sbx_src", text, n_obligations=len(thms))
+    ok, out = checked_obligation(ctx, "Gen_sbx_src", text, len(thms))
     ctx.extra["source_equations"] = thms
     if ok:
         ctx.trusted.append("Gen_sbx_src (source term = model function: " + ", ".join(thms) + "): " + " ".join(sorted(set(out.split("\n")))).strip())
@@ -34,7 +73,7 @@ def source_equations_paths(ctx):
         ctx.obligation_names.append(f"Gen_sbx_src (source = model, {n})")
         ctx.broken.append(f"translator gen/sbx_translate2.py: the source left the translatable vocabulary: {e}")
         return False
-    ok, out = ctx.coq_obligation("Gen_sbx_src", text, n_obligations=len(thms))
+    ok, out = checked_obligation(ctx, "Gen_sbx_src", text, len(thms))
     ctx.extra["source_equations"] = thms
     if ok:
         ctx.trusted.append("Gen_sbx_src (source term = model function: " + ", ".join(thms) + "): " + " ".join(sorted(set(out.split("\n")))).strip())
@@ -51,5 +90,5 @@ def routing_table(ctx):
         ctx.obligation_names.append("Gen_sbx_route (regenerated, 3)")
         ctx.broken.append(f"translator gen/sbx_route.py: compiler.py visitors left the recognised emission vocabulary: {e}")
         return False
-    ok, _ = ctx.coq_obligation("Gen_sbx_route", text, n_obligations=3)
+    ok, _ = checked_obligation(ctx, "Gen_sbx_route", text, 3)
     return ok
